@@ -70,7 +70,8 @@ def _model(out, name, a, before, after, tag):
             out.fail("model:scale", f"{tag}: scale({a['k']}) {before} -> {after}")
     elif name == "add_abs":
         m = ops.msg(a["m"], True)
-        want = sorted(ev0 + [O.ev_tuple(m.time, m)], key=O._sortkey)
+        # (an INTERNAL marker is no event; it only extends the duration)
+        want = sorted(ev0 + ([O.ev_tuple(m.time, m)] if a["m"][0] != "cap" else []), key=O._sortkey)
         if ev1 != want or d1 != max(d0, m.time):
             out.fail("model:add_absolute_message", f"{tag}: {a['m']} {before} -> {after}")
     elif name == "add_rel" and a["i"] is None:
@@ -84,7 +85,8 @@ def _model(out, name, a, before, after, tag):
                 out.fail("model:add_relative_message", f"{tag}: {a['m']} {before} -> {after}")
     elif name == "ow_abs":
         msgs = [ops.msg(m, True) for m in a["msgs"]]
-        want = (sorted((O.ev_tuple(m.time, m) for m in msgs), key=O._sortkey), max([m.time for m in msgs], default=0))
+        want = (sorted((O.ev_tuple(m.time, m) for m in msgs if O._kind(m) != "internal"), key=O._sortkey),
+                max([m.time for m in msgs], default=0))
         if after != want:
             out.fail("model:overwrite_absolute_messages", f"{tag}: want {want} got {after}")
     elif name == "ow_rel":
